@@ -57,17 +57,37 @@ func unmarshal(r *bufio.Reader) (interface{}, error) {
 			return nil, errors.New("bencode: unknown input sequence")
 		}
 
-		buf := make([]byte, length)
-		n, err := r.Read(buf)
-
+		s, err := readString(r, length)
 		if err != nil {
 			return nil, err
-		} else if int64(n) != length {
-			return nil, errors.New("bencode: short read")
 		}
 
+		return s, nil
+	}
+}
+
+// readString reads a string of the announced length. The length comes from
+// the peer and is not trusted: short strings are read into a buffer of at
+// most one bufio buffer, longer ones are copied as their bytes arrive, so
+// memory is only ever allocated for data that was actually received.
+func readString(r *bufio.Reader, length int64) (string, error) {
+	if length < 0 {
+		return "", errors.New("bencode: negative string length")
+	}
+
+	if length <= int64(r.Size()) {
+		buf := make([]byte, length)
+		if _, err := io.ReadFull(r, buf); err != nil {
+			return "", err
+		}
 		return string(buf), nil
 	}
+
+	var buf bytes.Buffer
+	if _, err := io.CopyN(&buf, r, length); err != nil {
+		return "", err
+	}
+	return buf.String(), nil
 }
 
 func readTerminator(r io.ByteScanner, term byte) (bool, error) {
